@@ -66,7 +66,7 @@ namespace fastscapelib
             if ((*p_jobs)[i] != nullptr)
             {
                 FASTSCAPELIB_VERIF_SCHED(runtasks_before_store, i);
-                m_has_job[i].store(1, std::memory_order_relaxed);
+                m_has_job[i].store(1, std::memory_order_release);
                 FASTSCAPELIB_VERIF_SCHED(runtasks_after_store, i);
             }
     }
@@ -128,7 +128,7 @@ namespace fastscapelib
     {
         for (std::size_t i = 0; i < m_size; ++i)
         {
-            if (m_has_job[i].load(std::memory_order_relaxed))
+            if (m_has_job[i].load(std::memory_order_acquire))
                 return false;
         }
         return true;
@@ -197,12 +197,12 @@ namespace fastscapelib
                         while (!m_stopped.load(std::memory_order_relaxed))
                         {
                             FASTSCAPELIB_VERIF_SCHED(worker_loop, i);
-                            if (m_has_job[i].load(std::memory_order_relaxed))
+                            if (m_has_job[i].load(std::memory_order_acquire))
                             {
                                 FASTSCAPELIB_VERIF_SCHED(worker_before_job, i);
                                 (*p_jobs)[i]();
                                 FASTSCAPELIB_VERIF_SCHED(worker_after_job, i);
-                                m_has_job[i].store(0, std::memory_order_relaxed);
+                                m_has_job[i].store(0, std::memory_order_release);
                                 FASTSCAPELIB_VERIF_SCHED(worker_after_clear, i);
                             }
                         }
